@@ -1,6 +1,7 @@
 import G3D.Proofs.Move
 import G3D.Proofs.Polyhedron
 import G3D.Proofs.Equality
+import G3D.Proofs.Composite
 /-! # C05 — membership (`in`) agrees with exact containment
     `den` is the point set denoted (parametric definition for flats, convex hull of the vertices for
     polygons / polyhedra).  Full for Point in Line/HalfLine/Segment/Plane/ConvexPolygon and for the
@@ -65,4 +66,15 @@ theorem segment_in_polyhedron_partial (B : Polyhedron) (hv : B.VertsInside) (s :
   rw [Bool.and_eq_true]
   exact ⟨Polyhedron.hull_subset_contains B hv _ (h _ s.den_endpoints.1),
          Polyhedron.hull_subset_contains B hv _ (h _ s.den_endpoints.2)⟩
+theorem halfline_in_line (l : Line) (hl : l.WF) (h : HalfLine) (hh : h.WF) :
+    l.containsHalfLine h = true ↔ ∀ x, h.den x → l.den x := Line.containsHalfLine_iff l hl h hh
+theorem halfline_in_plane (p : Plane) (h : HalfLine) (hh : h.WF) :
+    p.containsHalfLine h = true ↔ ∀ x, h.den x → p.den x := Plane.containsHalfLine_iff p h hh
+theorem halfline_in_halfline (c h : HalfLine) (hc : c.WF) (hh : h.WF) :
+    c.containsHL h = true ↔ ∀ x, h.den x → c.den x := HalfLine.containsHL_iff c h hc hh
+theorem polygon_in_plane (P : Polygon) (hv : P.Valid) (pl : Plane) (hpl : pl.WF) :
+    P.inPlane pl = true ↔ ∀ x, InHull P.pts x → pl.den x := Polygon.inPlane_iff P hv pl hpl
+theorem polygon_in_polyhedron_partial (B : Polyhedron) (hv : B.VertsInside) (P : Polygon)
+    (h : ∀ x, InHull P.pts x → InHull B.verts x) : B.containsPolygon P = true :=
+  Polyhedron.containsPolygon_of_hull B hv P h
 end G3D.Props.C05
